@@ -1843,3 +1843,22 @@ def virtual_default_cycles(prog, root_cls):
                 out.append((ch[0]["name"], found[0], "%s:%s" % (ch[0].get("file"), ch[0].get("line"))))
                 break
     return out, n
+
+
+# ---------- parameters of expanded helpers ----------
+
+def bound_init(f, var, at_block, dom=None):
+    """The argument a parameter of an expanded helper stands for at a given place of the flattened function: the `init` of the nearest
+    `bind` event for that parameter whose block dominates `at_block` (a helper expanded several times has one bind per expansion)."""
+    if not var:
+        return None
+    base = var.split("@")[0]
+    dom = dom if dom is not None else cfg.dominators(f)
+    best = None
+    for e in f.events("bind"):
+        if (e.get("var") or "").split("@")[0] != base:
+            continue
+        if e.block == at_block or e.block in dom.get(at_block, ()):
+            if best is None or len(dom.get(e.block, ())) > len(dom.get(best.block, ())) or (e.block == best.block and e.idx > best.idx):
+                best = e
+    return (best.get("init") or {}) if best is not None else None
